@@ -191,6 +191,12 @@ def check(ctx):
 
     # ---- C16.d the run reads the source entity's data ----
     n = core.adopt(ctx, c03, lambda o: o["rule"] == "C03.c" and "EntityLocal" in o["key"], "C16.d")
+    # a postponed run is handed its own entity's metadata (claim order of the entity-reaction tracker, shared with C03.e)
+    n2 = core.adopt(ctx, c03, lambda o: o["rule"] == "C03.e" and "EntityReactionAccessTracker" in o["key"], "C16.d")
+    ctx.floor("C16.d", n2, 4, "shared claim-order obligations of the entity-reaction tracker (C03.e)")
+    # removing one trigger removes exactly that entry of the entity's reactors (shared with C06.b)
+    n3 = core.adopt(ctx, c06, lambda o: o["rule"] == "C06.b" and "EntityReactors::remove" in o["key"], "C16.c")
+    ctx.floor("C16.c", n3, 2, "shared EntityReactors::remove obligations (C06.b)")
     # the entity reported and the entity whose data is read are the same accessor result
     for nm in ("get", "get_mut"):
         try:
